@@ -263,8 +263,10 @@ def map(
         xmax = (datax + datadx).max().values
         ymin = (datay - datadx).min().values
         ymax = (datay + datadx).max().values
-        zmin = (dataz - datadx).min().values
-        zmax = (dataz + datadx).max().values
+        # Depth window as with an explicit dx (where dz defaults to dx): the extent of
+        # the selected cells can lie entirely on one side of the plane
+        zmin = -0.5 * (dz.magnitude if thick else xmax - xmin)
+        zmax = -zmin
         dx = (xmax - xmin) * datadx.unit
         dy = (ymax - ymin) * datadx.unit
 
